@@ -19,6 +19,7 @@ func zzC08_order() {
 	trans := make([]*zzTransport, nconn)
 	running := make([]int, nconn)
 	overlap := false
+	wantCloseNotify := nconn == 1 && zzFlag("closeNotifyInFirstHandler")
 	h := HandlerFunc(func(c Conn, m *Message) {
 		ci := -1
 		for i := range trans {
@@ -32,6 +33,12 @@ func zzC08_order() {
 		running[ci]++
 		if running[ci] > 1 {
 			overlap = true
+		}
+		if wantCloseNotify {
+			// the first handler asks for the close notification (as sm.Client's watchdog does): from here
+			// on the connection is read through the library's pipe copier
+			wantCloseNotify = false
+			_ = c.(CloseNotifier).CloseNotify()
 		}
 		log = append(log, zzEv{ci, m.Header.HopByHopID, true})
 		<-release[ci]
@@ -151,14 +158,27 @@ func zzC08_order() {
 		vAssert(n == 1, "each connection has started exactly one handler while it blocks")
 	}
 	// release handlers one at a time in a case-split connection order
+	released := make([]int, nconn)
 	for step := 0; step < nconn*nmsg; step++ {
 		ci := vChoice("release", nconn)
 		release[ci] <- struct{}{}
+		released[ci]++
 		vQuiesce()
 	}
 	vAssert(!overlap, "the handler for a message is not started before the previous one has returned")
 	// per connection: enter(k) exit(k) enter(k+1) ... in arrival order, as far as it was released
 	for i := 0; i < nconn; i++ {
+		exits := 0
+		for _, e := range log {
+			if e.conn == i && !e.enter {
+				exits++
+			}
+		}
+		wantExits := released[i]
+		if wantExits > nmsg {
+			wantExits = nmsg
+		}
+		vAssert(exits == wantExits, "every message whose predecessors were released is dispatched: none is lost or held back")
 		k := 0
 		open := false
 		for _, e := range log {
